@@ -51,7 +51,7 @@ pub fn run(ctx: &mut Ctx) {
         }
     }
     ctx.mark_exhaustive("type-by-length", "64 type values x byte lengths 0..=60 plus specified and long lengths x {zeros, ones, random contents}");
-    let n = ctx.tier.pick(20_000, 600_000);
+    let n = ctx.tier.pick(100_000, 600_000);
     ctx.run_proptest("random-fields", &STD, n, payload_inputs(SUPPORTED.to_vec(), LenMode::Standard, Prop::C09, 6, 0.10), check);
     ctx.run_proptest("random-any-length", &STD, n / 2, payload_inputs((0..64).collect(), LenMode::Any, Prop::C09, 3, 0.05), check);
 }
